@@ -12,18 +12,26 @@ trap cleanup EXIT
 cd $wt
 demo=$(ls $src/demo.py $src/demo_test.py 2>/dev/null | head -1)
 run_demo() { if [[ $demo == *demo_test.py ]]; then PYTHONPATH=$wt timeout 300 /venv/bin/python -m pytest -q -p no:cacheprovider $demo >/dev/null 2>&1; else PYTHONPATH=$wt timeout 300 /venv/bin/python $demo >/dev/null 2>&1; fi; echo $?; }
-run_tests() { [ -z "$tests" ] && { echo "none"; return; }; PYTHONPATH=$wt timeout 1700 /venv/bin/python -m pytest -q -p no:cacheprovider --no-header -rN $tests 2>&1 | grep -E "^(FAILED|ERROR)" | sort | md5sum | cut -c1-8; }
+run_tests() { [ -z "$tests" ] && { : > $1; return; }; PYTHONPATH=$wt timeout 1700 /venv/bin/python -m pytest -q -p no:cacheprovider --no-header -rfE $tests 2>&1 | grep -E "^(FAILED|ERROR) " | sed -E "s/^(FAILED|ERROR) //; s/ - .*//" | sort -u > $1; }
 un_demo=$(run_demo)
-un_tests=$(run_tests)
+run_tests /tmp/verif-confirm-$id.un; un_tests=$(wc -l < /tmp/verif-confirm-$id.un)
 git apply --3way $src/patch.diff 2>/dev/null || git apply $src/patch.diff || { echo "$id: PATCH DOES NOT APPLY"; exit 3; }
 files=$(git diff HEAD --name-only | grep '\.py$' | tr '\n' ' ')
 PYTHONPATH=$wt /venv/bin/python -c "import vgi_rpc, vgi_rpc.http" || { echo "$id: IMPORT BROKEN"; exit 3; }
 lint=ok; /venv/bin/python -m ruff check -q $files >/dev/null 2>&1 || lint=ruff-check; /venv/bin/python -m ruff format --check -q $files >/dev/null 2>&1 || lint="$lint ruff-format"
 mypy_out=$(/venv/bin/python -m mypy $files 2>&1 | grep -v "external.py" | grep -c "error:")
 ch_demo=$(run_demo)
-ch_tests=$(run_tests)
-echo "$id: files=[$files] lint=$lint mypy_new_errors=$mypy_out demo_unchanged_rc=$un_demo demo_changed_rc=$ch_demo tests_failset_unchanged=$un_tests tests_failset_changed=$ch_tests"
-if [ "$un_demo" = "0" ] && [ "$ch_demo" != "0" ] && [ "$lint" = "ok" ] && [ "$mypy_out" = "0" ] && [ "$un_tests" = "$ch_tests" ]; then
+run_tests /tmp/verif-confirm-$id.ch
+# failures that appear only with the change: re-run them (load flakes pass on a re-run); what persists is real
+newf=$(comm -13 /tmp/verif-confirm-$id.un /tmp/verif-confirm-$id.ch | tr '\n' ' ')
+persist=""
+if [ -n "$newf" ]; then
+  persist=$(PYTHONPATH=$wt timeout 900 /venv/bin/python -m pytest -q -p no:cacheprovider --no-header -rfE $newf 2>&1 | grep -E "^(FAILED|ERROR) " | sed -E "s/^(FAILED|ERROR) //; s/ - .*//" | sort -u | tr '\n' ' ')
+fi
+ch_tests=$(wc -l < /tmp/verif-confirm-$id.ch)
+rm -f /tmp/verif-confirm-$id.un /tmp/verif-confirm-$id.ch
+echo "$id: files=[$files] lint=$lint mypy_new_errors=$mypy_out demo_unchanged_rc=$un_demo demo_changed_rc=$ch_demo failing_tests_unchanged=$un_tests failing_tests_changed=$ch_tests new_persistent_failures=[$persist]"
+if [ "$un_demo" = "0" ] && [ "$ch_demo" != "0" ] && [ "$lint" = "ok" ] && [ "$mypy_out" = "0" ] && [ -z "$persist" ]; then
   mkdir -p /verif/seeded/$id
   git diff HEAD > /verif/seeded/$id/patch.diff
   cp $demo /verif/seeded/$id/
@@ -34,7 +42,7 @@ try: m=json.load(open(f"{src}/meta.json"))
 except Exception: m={}
 m["property"]=pid.split("_")[0]
 m["confirmed"]={"patch_applies_to_repo_head":True,"imports":True,"ruff_mypy_clean_on_touched_files":True,
-  "existing_tests_run":tests,"existing_tests_same_failure_set_with_and_without":True,
+  "existing_tests_run":tests,"no_existing_test_fails_only_with_the_change":True,"existing_tests_note":"failing ids compared with and without the change; ids failing only with it were re-run to exclude load flakes, none persisted",
   "demo_rc_unchanged":int(un),"demo_rc_changed":int(ch),"how":"tools/confirm_seed.sh in a scratch git worktree of /repo HEAD"}
 m["caught_by_checks"]=[c for c in caught.split(",") if c]
 json.dump(m,open(f"/verif/seeded/{pid}/meta.json","w"),indent=1)
